@@ -98,7 +98,21 @@ Definition c10_run (input : list Z) : list Z :=
           ++ ou (did_url_parse s) ++ ou (did_url_parse s) ++ ou (did_url_parse s) ++ ou (did_url_parse s) ++ tourl ++ tourl
       | _ => ERR_DECODE
       end
-    else []     (* kinds 5 (join) and 6 (Eq/Ord/Hash pairs): decided by the property oracle only *)
+    else if kind =? 6 then
+      (* Eq / Ord / Hash of two parsed DID URLs: eq, cmp (0 less, 1 equal, 2 greater), equal hasher input *)
+      match take_lp r with
+      | Some (a, r1) =>
+          match take_lp r1 with
+          | Some (b, []) =>
+              match did_url_parse (bytes_of a), did_url_parse (bytes_of b) with
+              | Ok x, Ok y => [zb (url_eqb x y); match url_cmp x y with Lt => 0 | Eq => 1 | Gt => 2 end; zb (list_eqb (url_hash_input x) (url_hash_input y))]
+              | _, _ => []
+              end
+          | _ => ERR_DECODE
+          end
+      | None => ERR_DECODE
+      end
+    else []     (* kind 5 (join): decided by the property oracle only *)
   | [] => ERR_DECODE
   end.
 
